@@ -217,7 +217,7 @@ theorem covered_list (last fst : Bool) (e0 : ElemA) (es : List ElemA) (idx : Opt
     simp only [hmap] at this
     cases fst with
     | true => simpa using this.toFirst
-    | false => simpa using this.notFirst
+    | false => simpa using this.toRest
   · have := resolveList_list (e0 :: es) hes idx
     simp only [processOperand, listTok] at this ⊢
     rw [this]
@@ -249,7 +249,7 @@ theorem covered_range (last fst : Bool) (first : ElemA) (b : Nat) (idx : Option 
       hi1 hi2 hi3 (by simp)).any last
     cases fst with
     | true => simpa using this.toFirst
-    | false => simpa using this.notFirst
+    | false => simpa using this.toRest
   · have := resolveList_range first hf b [] idx
     simp only [processOperand, listTok] at this ⊢
     rw [this]
